@@ -616,9 +616,9 @@ def fault_plans(tier, counts, rnd, data=False):
     else:
         deny_ks = list(range(a))
         crash_ks = list(range(a))
-        kill_ks = list(range(0, a, 8))
+        kill_ks = list(range(0, a, 16))
         pyk_ks = list(range(p))
-        vm_ks = sorted(set(range(0, v, max(1, v // 400)))) if v else []
+        vm_ks = sorted(set(range(0, v, max(1, v // 200)))) if v else []
     plans += [[{"kind": "deny", "k": k}] for k in deny_ks]
     plans += [[{"kind": "crash_auth", "k": k}] for k in crash_ks]
     plans += [[{"kind": "crash_py", "k": k}] for k in range(p)]
@@ -626,9 +626,9 @@ def fault_plans(tier, counts, rnd, data=False):
     plans += [[{"kind": "kill_auth", "k": k}] for k in kill_ks]
     plans += [[{"kind": "kill_py", "k": k}] for k in pyk_ks]
     if tier == "thorough" and a:
-        kinds = ["deny"] * 3 + ["crash_auth"] * 3 + ["crash_py"] * 2 + ["interrupt"] * 2 + ["kill_auth", "kill_py"]
+        kinds = ["deny"] * 4 + ["crash_auth"] * 4 + ["crash_py"] * 3 + ["interrupt"] * 3 + ["kill_auth", "kill_py"]
         lim = {"deny": a, "crash_auth": a, "kill_auth": a, "kill_py": max(p, 1), "crash_py": max(p, 1), "interrupt": max(v, 1)}
-        for _ in range(250):
+        for _ in range(120):
             k1, k2 = rnd.choice(kinds), rnd.choice(kinds)
             plans.append([{"kind": k1, "k": rnd.randrange(lim[k1])}, {"kind": k2, "k": rnd.randrange(lim[k2])}])
     return plans
